@@ -89,6 +89,7 @@ def signature(case, v, prev="", o=None, prev_is_comment=False):
 
 
 def run(ctx):
+    _fmt.selftest(ctx)
     cases = _fmt.gen_cases(ctx, n_single=ctx.pick(1500, 100000), n_sim=ctx.pick(300, 3000), max_files=ctx.pick(6, 1000))
     out = _fmt.run_formatter(ctx, cases)
     runs = []
